@@ -34,6 +34,14 @@ func (q *ProvideQueue) enqueueNoLock(prefix bitstr.Key, keys []mh.Multihash)
 # Persist: every operation put into a batch is committed before the batch is
 # replaced or the function reports success ($pending = operations in the
 # current batch that are not yet committed).
+# arithmetic fact about consecutive remainders (proved separately as lemma
+# mod_succ_proof; stated as an axiom so that the loop proofs below do not depend
+# on a solver's nonlinear reasoning)
+axiom mod_succ(i int, b int): imp(i >= 0 && b > 0, (mod(i+1, b) == 0 || mod(i+1, b) == mod(i, b) + 1) && 0 <= mod(i, b) && mod(i, b) < b)
+lemma mod_succ_proof(i int, b int)
+  requires i >= 0 && b > 0
+  ensures (mod(i+1, b) == 0 || mod(i+1, b) == mod(i, b) + 1) && 0 <= mod(i, b) && mod(i, b) < b
+
 func (q *ProvideQueue) Persist(ctx context.Context, d ds.Batching, batchSize int) error
   props C19
   requires batchSize > 0
